@@ -5,3 +5,11 @@ open Fzf.Props.C02
 #print axioms C02_slab_guard_bounds_score
 #print axioms C02_w16_id
 #print axioms C02_checked_ok_imp_no_panic
+#print axioms C02_prefix_exact
+#print axioms C02_suffix_exact
+#print axioms C02_equal_exact
+#print axioms C02_calculateScore_total
+#print axioms C02_normalize_ascii
+#print axioms C02_prefilter_sound
+#print axioms C02_v1_sound_complete
+#print axioms C02_v1_forward_total
